@@ -271,7 +271,7 @@ Lemma kern_run_closed_form stream kd reg out ctx timed outfile :
      ++ FDump outfile (prof_run reg pst0 stream) :: main_rest out outfile,
      main_outcome kd out, prof_run reg pst0 stream).
 Proof.
-  unfold kern_run, kern_main, main_pre, main_post, main_outcome, main_rest.
+  unfold kern_run, kern_main, kern_main_gen, main_pre, main_post, main_outcome, main_rest.
   destruct out, ctx, timed, kd; cbn [exec absorbed raise_eff program_outcome app];
     rewrite <- ?app_assoc; reflexivity.
 Qed.
@@ -347,6 +347,133 @@ Proof.
     rewrite ?filter_app, ?filter_dump_prog; cbn [app filter is_dump length];
     rewrite ?filter_app, ?filter_dump_prog; cbn [app filter is_dump length]; split; reflexivity.
 Qed.
+
+(* ---- -i: periodic dumps while the program runs ------------------------------------------ *)
+Lemma prof_run_app reg st a b : prof_run reg st (a ++ b) = prof_run reg (prof_run reg st a) b.
+Proof. unfold prof_run. apply fold_left_app. Qed.
+
+Lemma prog_trace_state tfile reg ticks : forall st stream,
+  snd (prog_trace tfile reg st stream ticks) = prof_run reg st stream.
+Proof.
+  induction ticks as [|n t IH]; intros st stream; [reflexivity|].
+  cbn [prog_trace].
+  destruct (prog_trace tfile reg (prof_run reg st (firstn n stream)) (skipn n stream) t) as [tr st2] eqn:E.
+  cbn [snd]. pose proof (IH (prof_run reg st (firstn n stream)) (skipn n stream)) as H. rewrite E in H. cbn [snd] in H.
+  rewrite H, <- prof_run_app, firstn_skipn. reflexivity.
+Qed.
+
+Lemma prog_trace_events tfile reg ticks : forall st stream,
+  program_events (fst (prog_trace tfile reg st stream ticks)) = stream.
+Proof.
+  induction ticks as [|n t IH]; intros st stream.
+  - cbn [prog_trace fst]. rewrite <- (app_nil_r (map FProg stream)), program_events_prog. apply app_nil_r.
+  - cbn [prog_trace].
+    destruct (prog_trace tfile reg (prof_run reg st (firstn n stream)) (skipn n stream) t) as [tr st2] eqn:E.
+    cbn [fst]. rewrite program_events_prog.
+    change (program_events (FDump tfile (prof_run reg st (firstn n stream)) :: tr)) with (program_events tr).
+    pose proof (IH (prof_run reg st (firstn n stream)) (skipn n stream)) as H. rewrite E in H. cbn [fst] in H.
+    rewrite H. apply firstn_skipn.
+Qed.
+
+Lemma last_dump_app A o st rest :
+  nodump (rev rest) = true -> last_dump (A ++ FDump o st :: rest) = Some (o, st).
+Proof.
+  intros H. unfold last_dump. rewrite rev_app_distr. cbn [rev]. rewrite <- app_assoc.
+  rewrite dumped_skip by exact H. reflexivity.
+Qed.
+
+Lemma kern_run_ticks_closed_form stream kd reg out ticks ctx outfile :
+  kern_run_ticks stream kd reg out ticks ctx outfile
+  = (main_pre ctx ++ fst (prog_trace outfile reg pst0 stream ticks) ++ main_post kd ctx true
+     ++ FDump outfile (snd (prog_trace outfile reg pst0 stream ticks)) :: main_rest out outfile,
+     main_outcome kd out, snd (prog_trace outfile reg pst0 stream ticks)).
+Proof.
+  unfold kern_run_ticks, kern_main_ticks, kern_main_gen, main_pre, main_post, main_outcome, main_rest.
+  destruct out, ctx, kd; cbn [exec absorbed raise_eff program_outcome app];
+    destruct (prog_trace outfile reg pst0 stream ticks) as [pt st'];
+    cbn [fst snd app absorbed]; rewrite <- ?app_assoc; cbn [app]; reflexivity.
+Qed.
+
+(* With -i a timer thread writes snapshots into the same file while the program
+   runs (after any numbers of events): whatever they were, the LAST write is main's
+   own dump, made after every program event, and it holds the state of the whole
+   executed stream - a periodic dump never stands in for the final one. *)
+Theorem final_dump_with_periodic_dumps stream kd reg out ticks ctx outfile :
+  let '(tr, oc, st) := kern_run_ticks stream kd reg out ticks ctx outfile in
+  last_dump tr = Some (outfile, prof_run reg pst0 stream)
+  /\ program_events tr = stream
+  /\ (exists A rest, tr = A ++ FDump outfile (prof_run reg pst0 stream) :: rest
+                     /\ nodump rest = true /\ existsb is_prog rest = false)
+  /\ oc = main_outcome kd out
+  /\ st = prof_run reg pst0 stream.
+Proof.
+  rewrite kern_run_ticks_closed_form, prog_trace_state.
+  repeat split.
+  - rewrite !app_assoc. apply last_dump_app. destruct out; reflexivity.
+  - rewrite !program_events_app, prog_trace_events.
+    replace (program_events (main_pre ctx)) with (@nil pev) by (destruct ctx; reflexivity).
+    replace (program_events (main_post kd ctx true)) with (@nil pev) by (destruct kd, ctx; reflexivity).
+    destruct out; cbn; apply app_nil_r.
+  - eexists. exists (main_rest out outfile). split; [rewrite !app_assoc; reflexivity|].
+    destruct out; split; reflexivity.
+Qed.
+
+(* ---- the wrappers' windows are transparent --------------------------------------------------- *)
+Lemma prof_step_unreg reg st e : reg (fn_of e) = false -> prof_step reg st e = st.
+Proof. unfold prof_step. intros ->. reflexivity. Qed.
+
+Lemma wrap_transparent reg evs : forall s s' st,
+  stack_from (Some s) evs = Some s' ->
+  wprof_run reg (nreg reg s, st) (wrap reg evs) = (nreg reg s', prof_run reg st evs).
+Proof.
+  induction evs as [|e t IH]; intros s s' st Hs.
+  - cbn in Hs. injection Hs as <-. reflexivity.
+  - unfold stack_from in Hs. cbn [fold_left] in Hs.
+    destruct (stack_step (Some s) e) as [s1|] eqn:E;
+      [|fold (stack_from None t) in Hs; rewrite stack_from_none in Hs; discriminate].
+    fold (stack_from (Some s1) t) in Hs.
+    unfold wrap. cbn [flat_map]. fold (wrap reg t).
+    unfold wprof_run. rewrite fold_left_app. fold (wprof_run reg).
+    unfold prof_run. cbn [fold_left]. fold (prof_run reg (prof_step reg st e) t).
+    rewrite <- (IH s1 s' (prof_step reg st e) Hs). f_equal.
+    destruct e as [f|f l|f]; cbn [stack_step] in E.
+    + injection E as <-. unfold nreg. cbn [filter]. destruct (reg f) eqn:R; cbn [fold_left wstep fst snd length].
+      * reflexivity.
+      * rewrite prof_step_unreg by exact R. destruct (length (filter reg s)); reflexivity.
+    + destruct s as [|g r]; [discriminate|]. destruct (Z.eqb_spec f g) as [->|]; [|discriminate].
+      injection E as <-. cbn [fold_left wstep fst snd]. unfold nreg. cbn [filter].
+      destruct (reg g) eqn:R; cbn [length].
+      * reflexivity.
+      * rewrite prof_step_unreg by exact R. destruct (length (filter reg r)); reflexivity.
+    + destruct s as [|g r]; [discriminate|]. destruct (Z.eqb_spec f g) as [->|]; [|discriminate].
+      injection E as <-. unfold nreg. cbn [filter].
+      destruct (reg g) eqn:R; cbn [fold_left wstep fst snd length pred].
+      * reflexivity.
+      * rewrite prof_step_unreg by exact R. destruct (length (filter reg r)); reflexivity.
+Qed.
+
+(* the profiler that is only switched on inside the wrappers' windows records exactly
+   what an always-on profiler would record for the registered functions: every
+   activation segment of a registered function - a call, a generator resumption, the
+   resumption that delivers close() or throw() - lies inside a window *)
+Theorem windows_transparent reg evs :
+  wf evs = true ->
+  snd (wprof_run reg (0%nat, pst0) (wrap reg evs)) = prof_run reg pst0 evs.
+Proof.
+  unfold wf, stack_after. intros H.
+  destruct (stack_from (Some []) evs) as [s'|] eqn:E; [|discriminate].
+  change 0%nat with (nreg reg []). rewrite (wrap_transparent reg evs [] s' pst0 E). reflexivity.
+Qed.
+
+(* ... and a segment that is run outside a window is lost: a generator finalised by
+   close() with the profiler switched off (its clean-up line 5 executed, 0 hits) *)
+Example unwindowed_segment_is_lost :
+  let ws := [WEnable; WE (PCall 0); WE (PLine 0 2); WE (PRet 0); WDisable;
+             WE (PCall 0); WE (PLine 0 5); WE (PRet 0)] in
+  p_hits (snd (wprof_run (fun _ => true) (0%nat, pst0) ws)) 0 5 = 0
+  /\ p_hits (snd (wprof_run (fun _ => true) (0%nat, pst0)
+                    (wrap (fun _ => true) [PCall 0; PLine 0 2; PRet 0; PCall 0; PLine 0 5; PRet 0]))) 0 5 = 1.
+Proof. split; reflexivity. Qed.
 
 (* ---- the explicit mode ------------------------------------------------------------------- *)
 Definition hook_outputs (r : res emitted) : list (Z * option string) :=
